@@ -457,6 +457,15 @@ func c11(r *ev.Run) {
 	thorough := r.Tier == "thorough"
 	cases := append(c11DownstreamCases(rnd, thorough), c11BackendCases(rnd, thorough)...)
 	os.MkdirAll(ev.Root+"/run/C11", 0o755)
+	if only := os.Getenv("VERIF_C11_ONLY"); only != "" { // debugging aid: the volume requirements below then report the run inconclusive
+		var kept []hostileCase
+		for _, c := range cases {
+			if strings.Contains(c.Class, only) {
+				kept = append(kept, c)
+			}
+		}
+		cases = kept
+	}
 	e := &c11Env{r: r}
 	defer func() { e.stop() }()
 	restart := func() bool {
